@@ -10,6 +10,7 @@ CONSTANTS
   MinV = {1, 3}
   MaxV = {1}
   Pairs = {13, 31}
+  APairs = {31}
   Depth = 7
 CONSTRAINT Bound
 INVARIANT Emit1
